@@ -3308,11 +3308,17 @@ class Any(OctetString):
             return self._tagMap
 
         except AttributeError:
-            self._tagMap = tagmap.TagMap(
-                {self.tagSet: self},
-                {eoo.endOfOctets.tagSet: eoo.endOfOctets},
-                self
-            )
+            if self.tagSet:
+                # tagged ANY is identified by its tag(s) like any other type
+                self._tagMap = tagmap.TagMap({self.tagSet: self})
+
+            else:
+                # untagged ANY stands for whatever is not claimed otherwise
+                self._tagMap = tagmap.TagMap(
+                    {self.tagSet: self},
+                    {eoo.endOfOctets.tagSet: eoo.endOfOctets},
+                    self
+                )
 
             return self._tagMap
 
